@@ -167,6 +167,15 @@ class Impl:
         kw = dict(kw or {})
         if tag is not None:
             kw["tag"] = tag
+        # every other send also carries user keywords named like the built-in context: they must
+        # be ignored (C07: "cannot be overridden or leaked through user keyword arguments"), so
+        # nothing observable may change - the recorded event/source/target/state of every
+        # callback and the event-named callbacks that run are compared as always
+        self._nsend = getattr(self, "_nsend", -1) + 1
+        if self._nsend % 2 == 0:
+            kw.update(HOSTILE_KW)
+            if style not in ("send", "foreign"):      # send() itself has a parameter `event`
+                kw["event"] = "user-supplied"
         if style == "send":
             return self._run(lambda: self.sm.send(ev, *args, **kw), must_await=True)
         if style == "method":
@@ -211,6 +220,10 @@ class Impl:
 
 class _Plain:
     pass
+
+
+HOSTILE_KW = {k: "user-supplied" for k in ("state", "source", "target", "transition", "model",
+                                           "machine", "event_data")}
 
 
 class NotAwaitable(Exception):
